@@ -52,19 +52,49 @@ FN_TYPES = {
 }
 
 
+class St(tuple):
+    """A statement occurrence: a tuple with its own identity (equal
+    constant tuples may be one shared object in CPython, and the line table
+    is keyed by identity)."""
+    __slots__ = ()
+
+
+def fresh(stmt):
+    k = stmt[0]
+
+    def body(b):
+        return None if b is None else [fresh(x) for x in b]
+    if k == 'if':
+        return St(('if', [(c, body(b)) for c, b in stmt[1]], body(stmt[2])))
+    if k == 'if1':
+        return St(('if1', stmt[1], body(stmt[2]), body(stmt[3])))
+    if k == 'for':
+        return St(stmt[:5] + (body(stmt[5]),))
+    if k == 'while':
+        return St(('while', stmt[1], body(stmt[2])))
+    if k == 'do':
+        return St(('do', stmt[1], stmt[2], body(stmt[3])))
+    if k == 'select':
+        return St(('select', stmt[1],
+                   [(cl, body(b)) for cl, b in stmt[2]], body(stmt[3])))
+    if k == 'line':
+        return St(('line', body(stmt[1])))
+    return St(stmt)
+
+
 class Sub:
     def __init__(self, name, kind, params, body, static=False):
         # params: [('p%', None) | ('r', 'pt') | ('a%()', None)]
         self.name = name          # for FUNCTION includes type suffix
         self.kind = kind          # 'sub' | 'function'
         self.params = params
-        self.body = body
+        self.body = [fresh(x) for x in body]
         self.static = static
 
 
 class Prog:
     def __init__(self, main, subs=(), types=()):
-        self.main = list(main)
+        self.main = [fresh(x) for x in main]
         self.subs = list(subs)
         # types: [('pt', [('x%', None) | ('inner', 'other')])]
         self.types = list(types)
